@@ -221,7 +221,7 @@ func batcherShape(c *Ctx, rule string) {
 					continue
 				}
 				// is the constant edge the split path (the one that re-slices packets)?
-				if ph.Comment != "i" {
+				if vname(ph) != "i" {
 					continue
 				}
 				resets++
